@@ -459,4 +459,512 @@ theorem lw_step (s s' : S) (l : L) (h : LW s) (hs : step s l = some s') : LW s' 
       exact lw_worker s _ k .top h rfl rfl rfl rfl rfl (by rw [hc.2.2.1]; simp) (by simp)
     · cases hs
 
+/-! ### sums over the operations -/
+
+def sumP (ops : List Pos) (s : S) (g : Phase → Nat) : Nat := (ops.map (fun p => g (s.ph p))).sum
+
+theorem sumP_congr (ops : List Pos) (s s' : S) (g : Phase → Nat) (h : ∀ q ∈ ops, g (s'.ph q) = g (s.ph q)) :
+    sumP ops s' g = sumP ops s g := by
+  unfold sumP
+  congr 1
+  exact List.map_congr_left h
+
+/-- one position changes phase: the sum changes by the difference of the weights -/
+theorem sum_update (ph : Pos → Phase) (g : Phase → Nat) (p : Pos) (f : Phase) : ∀ (ops : List Pos), ops.Nodup → p ∈ ops →
+    (ops.map (fun q => g (if q = p then f else ph q))).sum + g (ph p) = (ops.map (fun q => g (ph q))).sum + g f := by
+  intro ops
+  induction ops with
+  | nil => intro _ h; cases h
+  | cons a as ih =>
+    intro hnd hp
+    rw [List.nodup_cons] at hnd
+    simp only [List.map_cons, List.sum_cons]
+    by_cases e : a = p
+    · subst e
+      have hsame : as.map (fun q => g (if q = a then f else ph q)) = as.map (fun q => g (ph q)) := by
+        apply List.map_congr_left
+        intro q hq
+        have : q ≠ a := by intro e; subst e; exact hnd.1 hq
+        simp [this]
+      rw [hsame]; simp; omega
+    · have hp' : p ∈ as := by
+        rcases List.mem_cons.1 hp with h | h
+        · exact absurd h.symm e
+        · exact h
+      have := ih hnd.2 hp'
+      simp only [e, if_false]
+      omega
+
+theorem sumP_setPh (ops : List Pos) (s s' : S) (g : Phase → Nat) (p : Pos) (f : Phase) (hnd : ops.Nodup) (hp : p ∈ ops)
+    (hph : s'.ph = fun q => if q = p then f else s.ph q) :
+    sumP ops s' g + g (s.ph p) = sumP ops s g + g f := by
+  unfold sumP; rw [hph]
+  exact sum_update s.ph g p f ops hnd hp
+
+/-- weight of an operation in the measure: distance of its phase from `retired` -/
+def phW (f : Phase) : Nat := 8 - f.rank
+
+/-- 1 for the phases counted by the done queue's semaphore -/
+def isD : Phase → Nat
+  | .dbuf _ => 1 | .dpipe => 1 | _ => 0
+
+/-- the worker, if any, that holds the position -/
+def heldBy : Phase → Option Nat
+  | .have k => some k | .running k => some k | .ran k => some k | _ => none
+
+/-! ### field effects of the two branching transitions -/
+
+theorem drecv_effect (s s' : S) (p : Pos) (hs : step s (.drecv p) = some s') :
+    s.pc = .dlocked ∧ s.ph p = .dpipe ∧ s'.ph = (fun q => if q = p then Phase.retired else s.ph q) ∧ s'.dout = s.dout - 1 ∧
+    s'.ws = s.ws ∧ s'.n = s.n ∧ s'.rlock = s.rlock ∧ s'.flag = s.flag ∧ s'.apex = s.apex ∧ s'.cap = s.cap ∧
+    ((p = s.apex ∧ s'.pc = .closing ∧ s'.mask = s.mask) ∨
+     (p ≠ s.apex ∧
+      s'.mask = (fun q => if q = p.parent then Gen.walk_flags_update (s.mask p.parent) (Gen.walk_bit_num (p.x % 2) (p.y % 2)) else s.mask q) ∧
+      ((Gen.walk_release (Gen.walk_flags_update (s.mask p.parent) (Gen.walk_bit_num (p.x % 2) (p.y % 2))) = true ∧ s'.pc = .releasing p.parent) ∨
+       (Gen.walk_release (Gen.walk_flags_update (s.mask p.parent) (Gen.walk_bit_num (p.x % 2) (p.y % 2))) = false ∧ s'.pc = .idle)))) := by
+  simp only [step] at hs
+  split at hs
+  · rename_i hg
+    split at hs
+    · rename_i hgap
+      cases hs
+      exact ⟨hg.1, hg.2, rfl, rfl, rfl, rfl, rfl, rfl, rfl, rfl, Or.inl ⟨hgap.2, rfl, rfl⟩⟩
+    · rename_i hgap
+      have hne : p ≠ s.apex := by
+        intro e; exact hgap ⟨stop_on_apex.1, e⟩
+      simp only [bump] at hs
+      by_cases hrel : Gen.walk_release (Gen.walk_flags_update (s.mask p.parent) (Gen.walk_bit_num (p.x % 2) (p.y % 2))) = true
+      · simp only [hrel, if_true, Option.some.injEq] at hs; subst hs
+        exact ⟨hg.1, hg.2, rfl, rfl, rfl, rfl, rfl, rfl, rfl, rfl, Or.inr ⟨hne, rfl, Or.inl ⟨hrel, rfl⟩⟩⟩
+      · simp only [hrel, Bool.false_eq_true, if_false, Option.some.injEq] at hs; subst hs
+        exact ⟨hg.1, hg.2, rfl, rfl, rfl, rfl, rfl, rfl, rfl, rfl, Or.inr ⟨hne, rfl, Or.inr ⟨by simpa using hrel, rfl⟩⟩⟩
+  · cases hs
+
+theorem seed_effect (s s' : S) (p : Pos) (hs : step s (.seed p) = some s') :
+    ∃ rest, s.pc = .seeding (p :: rest) ∧ s.ph p = .waiting ∧ s'.ph = (fun q => if q = p then Phase.rbuf else s.ph q) ∧
+    s'.pc = (if rest = [] then PC.starting 0 else PC.seeding rest) ∧ s'.dout = s.dout ∧ s'.mask = s.mask ∧
+    s'.ws = s.ws ∧ s'.n = s.n ∧ s'.rlock = s.rlock ∧ s'.flag = s.flag ∧ s'.apex = s.apex ∧ s'.cap = s.cap := by
+  simp only [step] at hs
+  split at hs
+  · rename_i q rest hpc
+    split at hs
+    · rename_i hg
+      obtain ⟨hpq, hw⟩ := hg
+      cases hs
+      subst hpq
+      exact ⟨rest, hpc, hw, rfl, rfl, rfl, rfl, rfl, rfl, rfl, rfl, rfl, rfl⟩
+    · cases hs
+  all_goals cases hs
+
+/-! ### the done queue's semaphore counts the reported, not yet received tiles -/
+
+def LC (ops : List Pos) (s : S) : Prop := s.dout = sumP ops s isD
+
+theorem lc_keep (ops : List Pos) (s s' : S) (h : LC ops s) (hd : s'.dout = s.dout)
+    (hD : ∀ q, isD (s'.ph q) = isD (s.ph q)) : LC ops s' := by
+  unfold LC at *
+  rw [hd, h]
+  exact (sumP_congr ops s s' isD (fun q _ => hD q)).symm
+
+theorem lc_step (ops : List Pos) (depth : Nat) (s s' : S) (l : L) (hnd : ops.Nodup) (hi : InvPh ops depth s) (h : LC ops s)
+    (hs : step s l = some s') : LC ops s' := by
+  have hin : ∀ p, s.ph p ≠ .waiting → p ∈ ops := by
+    intro p hp
+    by_cases e : p ∈ ops
+    · exact e
+    · exact absurd (hi.outside p e) hp
+  cases l
+  case dput k p =>
+    simp only [step] at hs
+    split at hs
+    · rename_i hc
+      cases hs
+      have := sumP_setPh ops s ({ setW (setPh s p (.dbuf k)) k .top with dout := s.dout + 1 } : S) isD p (.dbuf k) hnd
+        (hin p (by rw [hc.2.1]; simp)) rfl
+      rw [hc.2.1] at this
+      simp only [isD] at this
+      unfold LC at *
+      show s.dout + 1 = _
+      omega
+    · cases hs
+  case drecv p =>
+    obtain ⟨_, hp, hph, hd, _⟩ := drecv_effect s s' p hs
+    have := sumP_setPh ops s s' isD p .retired hnd (hin p (by rw [hp]; simp)) hph
+    rw [hp] at this
+    simp only [isD] at this
+    unfold LC at *
+    omega
+  case seed p =>
+    obtain ⟨rest, _, hw, hph, _, hd, _⟩ := seed_effect s s' p hs
+    refine lc_keep ops s s' h hd ?_
+    intro q; rw [hph]
+    by_cases e : q = p
+    · subst e; simp [hw, isD]
+    · simp [e]
+  all_goals
+    simp only [step] at hs
+    split at hs
+    · rename_i hc
+      cases hs
+      refine lc_keep ops s _ h rfl ?_
+      intro q
+      first
+        | rfl
+        | (simp only [setPh, setW]; split <;> simp_all [isD])
+    · cases hs
+
+/-! ### positions held by workers -/
+
+structure LH (s : S) : Prop where
+  held : ∀ p k, heldBy (s.ph p) = some k → k < s.n ∧ s.ws k = .busy
+  uniq : ∀ p p' k, heldBy (s.ph p) = some k → heldBy (s.ph p') = some k → p = p'
+  busy : ∀ k, k < s.n → s.ws k = .busy → ∃ p, heldBy (s.ph p) = some k
+
+theorem lh_init (n cap : Nat) (apex : Pos) (seeds : List Pos) (pre : Pos → Nat) : LH (init n cap apex seeds pre) := by
+  refine ⟨?_, ?_, ?_⟩
+  · intro p k h; simp [init, heldBy] at h
+  · intro p p' k h; simp [init, heldBy] at h
+  · intro k _ h; simp [init] at h
+
+theorem lh_keep (s s' : S) (h : LH s) (hn : s'.n = s.n) (hH : ∀ q, heldBy (s'.ph q) = heldBy (s.ph q))
+    (hB : ∀ k, (s'.ws k = .busy ↔ s.ws k = .busy)) : LH s' := by
+  refine ⟨?_, ?_, ?_⟩
+  · intro p k hp
+    rw [hH] at hp
+    rw [hn, hB]
+    exact h.held p k hp
+  · intro p p' k hp hp'
+    rw [hH] at hp hp'
+    exact h.uniq p p' k hp hp'
+  · intro k hk hb
+    rw [hn] at hk
+    obtain ⟨p, hp⟩ := h.busy k hk ((hB k).1 hb)
+    exact ⟨p, by rw [hH]; exact hp⟩
+
+theorem lh_step (s s' : S) (l : L) (h : LH s) (hs : step s l = some s') : LH s' := by
+  cases l
+  case rrecv k p =>
+    simp only [step] at hs
+    split at hs
+    · rename_i hc
+      obtain ⟨hk, _, hw, hp⟩ := hc
+      cases hs
+      have hnk : ∀ q, heldBy (s.ph q) ≠ some k := by
+        intro q hq
+        have := (h.held q k hq).2
+        rw [hw] at this; cases this
+      refine ⟨?_, ?_, ?_⟩
+      · intro q j hq
+        simp only [setPh, setW] at hq ⊢
+        by_cases e : q = p
+        · subst e
+          simp only [if_true, heldBy, Option.some.injEq] at hq
+          subst hq
+          exact ⟨hk, by simp⟩
+        · simp only [e, if_false] at hq
+          have hjk : j ≠ k := by intro e2; subst e2; exact hnk q hq
+          simp only [hjk, if_false]
+          exact h.held q j hq
+      · intro q q' j hq hq'
+        simp only [setPh, setW] at hq hq'
+        by_cases e : q = p
+        · by_cases e' : q' = p
+          · rw [e, e']
+          · simp only [e, if_true, heldBy, Option.some.injEq] at hq
+            simp only [e', if_false] at hq'
+            subst hq
+            exact absurd hq' (hnk q')
+        · by_cases e' : q' = p
+          · simp only [e', if_true, heldBy, Option.some.injEq] at hq'
+            simp only [e, if_false] at hq
+            subst hq'
+            exact absurd hq (hnk q)
+          · simp only [e, if_false] at hq
+            simp only [e', if_false] at hq'
+            exact h.uniq q q' j hq hq'
+      · intro j hj hb
+        simp only [setPh, setW] at hb hj ⊢
+        by_cases e : j = k
+        · subst e
+          exact ⟨p, by simp [heldBy]⟩
+        · simp only [e, if_false] at hb
+          obtain ⟨q, hq⟩ := h.busy j hj hb
+          have hqp : q ≠ p := by
+            intro e2; subst e2; rw [hp] at hq; simp [heldBy] at hq
+          exact ⟨q, by simp only [hqp, if_false]; exact hq⟩
+    · cases hs
+  case dput k p =>
+    simp only [step] at hs
+    split at hs
+    · rename_i hc
+      obtain ⟨hk, hp, hw, _⟩ := hc
+      cases hs
+      have hpk : heldBy (s.ph p) = some k := by rw [hp]; rfl
+      refine ⟨?_, ?_, ?_⟩
+      · intro q j hq
+        simp only [setPh, setW] at hq ⊢
+        by_cases e : q = p
+        · simp [e, heldBy] at hq
+        · simp only [e, if_false] at hq
+          have hjk : j ≠ k := by
+            intro e2; subst e2; exact e (h.uniq q p j hq hpk)
+          simp only [hjk, if_false]
+          exact h.held q j hq
+      · intro q q' j hq hq'
+        simp only [setPh, setW] at hq hq'
+        by_cases e : q = p
+        · simp [e, heldBy] at hq
+        · by_cases e' : q' = p
+          · simp [e', heldBy] at hq'
+          · simp only [e, if_false] at hq
+            simp only [e', if_false] at hq'
+            exact h.uniq q q' j hq hq'
+      · intro j hj hb
+        simp only [setPh, setW] at hb hj ⊢
+        by_cases e : j = k
+        · simp [e] at hb
+        · simp only [e, if_false] at hb
+          obtain ⟨q, hq⟩ := h.busy j hj hb
+          have hqp : q ≠ p := by
+            intro e2; subst e2; rw [hpk] at hq; simp at hq; exact e hq.symm
+          exact ⟨q, by simp only [hqp, if_false]; exact hq⟩
+    · cases hs
+  case drecv p =>
+    obtain ⟨_, hp, hph, _, hws, hn, _⟩ := drecv_effect s s' p hs
+    refine lh_keep s s' h hn ?_ (by intro k; rw [hws])
+    intro q; rw [hph]
+    by_cases e : q = p
+    · subst e; simp [hp, heldBy]
+    · simp [e]
+  case seed p =>
+    obtain ⟨rest, _, hw, hph, _, _, _, hws, hn, _⟩ := seed_effect s s' p hs
+    refine lh_keep s s' h hn ?_ (by intro k; rw [hws])
+    intro q; rw [hph]
+    by_cases e : q = p
+    · subst e; simp [hw, heldBy]
+    · simp [e]
+  case flagQ k b =>
+    simp only [step] at hs
+    split at hs
+    · rename_i hc
+      cases hs
+      refine lh_keep s _ h rfl (fun q => rfl) ?_
+      intro j
+      simp only [setW]
+      by_cases e : j = k
+      · subst e; rw [hc.2.2]; cases b <;> simp
+      · simp [e]
+    · cases hs
+  all_goals
+    simp only [step] at hs
+    split at hs
+    · rename_i hc
+      cases hs
+      refine lh_keep s _ h rfl ?_ ?_
+      · intro q
+        first
+          | rfl
+          | (simp only [setPh, setW]; split <;> simp_all [heldBy])
+      · intro j
+        first
+          | exact Iff.rfl
+          | (simp only [setPh, setW]; split <;> simp_all)
+    · cases hs
+
+/-! ### seeds, full masks, the apex -/
+
+structure LQ (ops : List Pos) (depth : Nat) (s : S) : Prop where
+  seedS : ∀ rest, s.pc = .seeding rest → rest ≠ [] ∧ rest.Nodup ∧ ∀ p ∈ rest, s.ph p = .waiting
+  seedW : ∀ p ∈ ops, p.n + 1 = depth → s.ph p = .waiting → ∃ rest, s.pc = .seeding rest ∧ p ∈ rest
+  full : ∀ p ∈ ops, p.n + 1 < depth → s.ph p = .waiting → allBits (s.mask p) → s.pc = .releasing p
+  apexN : late s.pc = false → s.ph s.apex ≠ .retired
+
+theorem lq_init (ops : List Pos) (apex : Pos) (depth : Nat) (seeds : List Pos) (pre : Pos → Nat)
+    (cfg : Cfg ops apex depth seeds pre) (hsn : seeds.Nodup)
+    (hchild : ∀ p ∈ ops, p.n + 1 < depth → ∃ k, k < 4 ∧ p.child k ∈ ops) (n cap : Nat) :
+    LQ ops depth (init n cap apex seeds pre) := by
+  refine ⟨?_, ?_, ?_, ?_⟩
+  · intro rest hr
+    simp only [init] at hr
+    by_cases hs : seeds = []
+    · simp [hs] at hr
+    · simp only [hs, if_false, PC.seeding.injEq] at hr
+      subst hr
+      exact ⟨hs, hsn, fun _ _ => rfl⟩
+  · intro p hp hl _
+    have hps : p ∈ seeds := (cfg.seedsSpec p).2 ⟨hp, hl⟩
+    have hs : seeds ≠ [] := by intro e; rw [e] at hps; cases hps
+    exact ⟨seeds, by simp [init, hs], hps⟩
+  · intro p hp hl _ hb
+    exfalso
+    obtain ⟨k, hk, hc⟩ := hchild p hp hl
+    have := ((cfg.preSpec p hp hl).2 k hk).1 (hb k hk)
+    exact this hc
+  · intro _; simp [init]
+
+theorem lq_keep (ops : List Pos) (depth : Nat) (s s' : S) (h : LQ ops depth s) (hap : s'.apex = s.apex) (hm : s'.mask = s.mask)
+    (hwt : ∀ q, s'.ph q = .waiting ↔ s.ph q = .waiting)
+    (hret : ∀ q, s'.ph q = .retired → s.ph q = .retired)
+    (hpcS : ∀ r, s'.pc = .seeding r ↔ s.pc = .seeding r)
+    (hpcR : ∀ p, s.pc = .releasing p → s'.pc = .releasing p)
+    (hlate : late s'.pc = false → late s.pc = false) : LQ ops depth s' := by
+  refine ⟨?_, ?_, ?_, ?_⟩
+  · intro rest hr
+    obtain ⟨a0, a, b⟩ := h.seedS rest ((hpcS rest).1 hr)
+    exact ⟨a0, a, fun p hp => (hwt p).2 (b p hp)⟩
+  · intro p hp hl hw
+    obtain ⟨rest, a, b⟩ := h.seedW p hp hl ((hwt p).1 hw)
+    exact ⟨rest, (hpcS rest).2 a, b⟩
+  · intro p hp hl hw hb
+    rw [hm] at hb
+    exact hpcR p (h.full p hp hl ((hwt p).1 hw) hb)
+  · intro hl hr
+    rw [hap] at hr
+    exact h.apexN (hlate hl) (hret _ hr)
+
+theorem lq_step (ops : List Pos) (depth : Nat) (s s' : S) (l : L) (hi' : InvPh ops depth s') (h : LQ ops depth s)
+    (hs : step s l = some s') : LQ ops depth s' := by
+  cases l
+  case seed p =>
+    obtain ⟨rest, hpc, hw, hph, hpc', _, hm, _, _, _, _, hap, _⟩ := seed_effect s s' p hs
+    obtain ⟨_, hnd, hall⟩ := h.seedS _ hpc
+    rw [List.nodup_cons] at hnd
+    refine ⟨?_, ?_, ?_, ?_⟩
+    · intro r hr
+      rw [hpc'] at hr
+      by_cases e : rest = []
+      · simp [e] at hr
+      · simp only [e, if_false, PC.seeding.injEq] at hr
+        subst hr
+        refine ⟨e, hnd.2, ?_⟩
+        intro q hq
+        have hqp : q ≠ p := by intro e2; subst e2; exact hnd.1 hq
+        rw [hph]; simp only [hqp, if_false]
+        exact hall q (List.mem_cons_of_mem _ hq)
+    · intro q hq hl hqw
+      rw [hph] at hqw
+      have hqp : q ≠ p := by intro e2; subst e2; simp at hqw
+      simp only [hqp, if_false] at hqw
+      obtain ⟨r0, hr0, hq0⟩ := h.seedW q hq hl hqw
+      rw [hpc] at hr0
+      simp only [PC.seeding.injEq] at hr0
+      subst hr0
+      have hqr : q ∈ rest := by
+        rcases List.mem_cons.1 hq0 with e | e
+        · exact absurd e hqp
+        · exact e
+      have hne : rest ≠ [] := by intro e; rw [e] at hqr; cases hqr
+      exact ⟨rest, by rw [hpc']; simp [hne], hqr⟩
+    · intro q hq hl hqw hb
+      rw [hph] at hqw
+      have hqp : q ≠ p := by intro e2; subst e2; simp at hqw
+      simp only [hqp, if_false] at hqw
+      rw [hm] at hb
+      have := h.full q hq hl hqw hb
+      rw [hpc] at this; cases this
+    · intro _
+      rw [hap, hph]
+      by_cases e : s.apex = p
+      · simp [e]
+      · simp only [e, if_false]
+        exact h.apexN (by rw [hpc]; rfl)
+  case release p =>
+    simp only [step] at hs
+    split at hs
+    · rename_i hc
+      obtain ⟨hpc, hw⟩ := hc
+      cases hs
+      refine ⟨?_, ?_, ?_, ?_⟩
+      · intro r hr; cases hr
+      · intro q hq hl hqw
+        simp only [setPh] at hqw
+        have hqp : q ≠ p := by intro e2; subst e2; simp at hqw
+        simp only [hqp, if_false] at hqw
+        obtain ⟨r0, hr0, _⟩ := h.seedW q hq hl hqw
+        rw [hpc] at hr0; cases hr0
+      · intro q hq hl hqw hb
+        simp only [setPh] at hqw hb
+        have hqp : q ≠ p := by intro e2; subst e2; simp at hqw
+        simp only [hqp, if_false] at hqw
+        have := h.full q hq hl hqw hb
+        rw [hpc] at this
+        simp only [PC.releasing.injEq] at this
+        exact absurd this.symm hqp
+      · intro _
+        simp only [setPh]
+        by_cases e : s.apex = p
+        · simp [e]
+        · simp only [e, if_false]
+          exact h.apexN (by rw [hpc]; rfl)
+    · cases hs
+  case drecv p =>
+    obtain ⟨hpc, hp, hph, _, _, _, _, _, hap, _, hcase⟩ := drecv_effect s s' p hs
+    have hnotseed : ∀ r, s'.pc ≠ .seeding r := by
+      intro r hr
+      rcases hcase with ⟨_, a, _⟩ | ⟨_, _, ⟨_, a⟩ | ⟨_, a⟩⟩ <;> rw [a] at hr <;> cases hr
+    refine ⟨?_, ?_, ?_, ?_⟩
+    · intro r hr; exact absurd hr (hnotseed r)
+    · intro q hq hl hqw
+      rw [hph] at hqw
+      have hqp : q ≠ p := by intro e2; subst e2; simp at hqw
+      simp only [hqp, if_false] at hqw
+      obtain ⟨r0, hr0, _⟩ := h.seedW q hq hl hqw
+      rw [hpc] at hr0; cases hr0
+    · intro q hq hl hqw hb
+      have hm16 := (hi'.masks q hq hl hqw).1
+      rw [hph] at hqw
+      have hqp : q ≠ p := by intro e2; subst e2; simp at hqw
+      simp only [hqp, if_false] at hqw
+      rcases hcase with ⟨_, _, hm⟩ | ⟨_, hm, hrel⟩
+      · rw [hm] at hb
+        have := h.full q hq hl hqw hb
+        rw [hpc] at this; cases this
+      · by_cases e : q = p.parent
+        · have hr : Gen.walk_release (s'.mask q) = true := (bits_release _ hm16).2 hb
+          rw [hm] at hr
+          simp only [e, if_true] at hr
+          rcases hrel with ⟨_, a⟩ | ⟨a, _⟩
+          · rw [a, e]
+          · rw [a] at hr; cases hr
+        · rw [hm] at hb
+          simp only [e, if_false] at hb
+          have := h.full q hq hl hqw hb
+          rw [hpc] at this; cases this
+    · intro hl
+      rw [hap, hph]
+      rcases hcase with ⟨_, a, _⟩ | ⟨hne, _, _⟩
+      · rw [a] at hl; cases hl
+      · have e : s.apex ≠ p := fun e => hne e.symm
+        simp only [e, if_false]
+        exact h.apexN (by rw [hpc]; rfl)
+  all_goals
+    simp only [step] at hs
+    split at hs
+    · rename_i hc
+      cases hs
+      refine lq_keep ops depth s _ h rfl rfl ?_ ?_ ?_ ?_ ?_
+      · intro q
+        first
+          | exact Iff.rfl
+          | (simp only [setPh, setW]; split <;> simp_all)
+      · intro q
+        first
+          | exact id
+          | (simp only [setPh, setW]; split <;> simp_all)
+      · intro r
+        first
+          | exact Iff.rfl
+          | (simp_all; done)
+          | (simp only [setPh, setW]; split <;> simp_all)
+      · intro q hq
+        first
+          | exact hq
+          | (simp_all; done)
+      · intro hl
+        first
+          | exact hl
+          | (simp_all [late]; done)
+          | (simp only [setPh, setW] at hl; split at hl <;> simp_all [late])
+    · cases hs
+
 end C01Live
